@@ -207,7 +207,7 @@ Proof. split; [reflexivity|apply le_n]. Qed.
 Example ex_names_differ :
   file_name show_enc (Month, (2018, 1, 1)%Z, 1%Z) <> file_name show_enc (Year, (2018, 1, 1)%Z, 1%Z).
 Proof. vm_compute. discriminate. Qed.
-Example ex_roles : flattened_roles std_entity = [0; 1]
+Example ex_roles : flattened_roles std_entity = [0; 1; 2]
   /\ NoDup (map (role_key std_entity) (flattened_roles std_entity))
   /\ decode_role std_entity "0"%string = no_role std_entity.
 Proof. vm_compute. repeat split. repeat constructor; cbn; intuition discriminate. Qed.
